@@ -84,6 +84,12 @@ def gen_spec(rng, n_max=8, allow_offsets=True, tier="quick", full_frac=0.15):
     spec = dict(n_poly=n_poly, n_off=n_off, data_unit=data_unit, surveys=surveys, kprior=kprior, P_unit=P_unit, P0=P0, lin=lin, offs=offs,
                 sigma_K0=(sigma_K0, sk_unit), max_K=max_K, theta=theta, s_choice=s_choice, nice=nice,
                 err_unit=(("m/s" if data_unit == "km/s" else "km/s") if rng.random() < 0.25 else None))
+    if n_off == 0 and rng.random() < 0.25:
+        # an explicit reference epoch that is not the first observation; half of them handed over on another time scale (the number is
+        # the TCB value: the kernel counts time from that instant)
+        spec["t_ref"] = float(min(surveys[0]["t"]) + np.round(rng.uniform(-40, 60) * 8) / 8)
+        if rng.random() < 0.5:
+            spec["t_ref_scale"] = ["utc", "tt", "tai"][int(rng.integers(0, 3))]
     if s_choice and rng.random() < 0.4:
         # the jitter column of the prior sample handed over in the other velocity unit (every entry point must convert it)
         spec["smp_units"] = {"s": "m/s" if data_unit == "km/s" else "km/s"}
@@ -244,7 +250,14 @@ def run_impl(spec):
     du = all_data.rv.unit
     out["rv"] = np.asarray(all_data.rv.value, float)
     out["ivar"] = np.asarray(all_data.ivar.to_value(1 / du**2), float)
-    out["t0"] = float(all_data._t_ref_bmjd)
+    # the reference epoch the problem specifies (not the attribute the implementation stored): explicit, none, or the earliest time
+    if spec.get("t_ref") is False and spec["n_off"] == 0:
+        out["t0"] = 0.0
+    elif spec.get("t_ref") is not None and spec["n_off"] == 0:
+        out["t0"] = float(spec["t_ref"])
+    else:
+        out["t0"] = float(min(min(sv["t"]) for sv in spec["surveys"]))
+    out["t0_impl"] = float(all_data._t_ref_bmjd)
     out["kcol"] = kepler_column(all_data._t_bmjd, out["t0"], dict(P=out["row"][0], e=out["row"][1], omega=out["row"][2], M0=out["row"][3]))
     # declared priors as the helper reads them (raw parameters of the distributions, unit factors)
     lin = []
